@@ -275,6 +275,45 @@ theorem segments_stay_disjoint_on_grid (segs : List (Int → Int → K)) (rnd : 
     obtain ⟨m0, _, rfl⟩ := hm
     simp [nearestMask, hout]
 
+/-- … and the post-mask of `util.rescale` cannot spoil it: each interpolated layer is multiplied by a factor (the order-1
+interpolated, thresholded support of that layer — any factor at all, here arbitrary per layer and sample) before it is binarised;
+a product is non-zero only where the nearest-sample value is, so the layers stay pairwise disjoint and every value is still 0 or 1 -/
+theorem segments_stay_disjoint_with_postmask (segs : List (Int → Int → K)) (ry rx : Int → Int)
+    (fac : (Int → Int → K) → Int → Int → K)
+    (hdis : ∀ a b, ((segs.filter fun m => decide (m a b ≠ 0)).length ≤ 1)) (i j : Int) :
+    let segs' := segs.map fun m => fun a b => binarise (m (ry a) (rx b) * fac m a b)
+    (segs'.filter fun m => decide (m i j ≠ 0)).length ≤ 1 ∧ (∀ m ∈ segs', m i j = 0 ∨ m i j = 1) := by
+  intro segs'
+  constructor
+  · have hlen : (segs'.filter fun m => decide (m i j ≠ 0)).length =
+        (segs.filter fun m => decide (m (ry i) (rx j) * fac m i j ≠ 0)).length := by
+      have hb : ∀ v : K, (binarise v ≠ 0) ↔ v ≠ 0 := by
+        intro v; unfold binarise; by_cases hv : v = 0
+        · rw [if_pos hv]; exact ⟨fun h => absurd rfl h, fun h => absurd hv h⟩
+        · rw [if_neg hv]; exact ⟨fun _ => hv, fun _ => by decide⟩
+      simp only [segs', List.filter_map, List.length_map]
+      congr 1; apply List.filter_congr; intro m _
+      simp only [Function.comp, hb]
+    rw [hlen]
+    refine le_trans (List.Sublist.length_le (List.monotone_filter_right segs ?_)) (hdis (ry i) (rx j))
+    intro m hm
+    simp only [decide_eq_true_eq] at hm ⊢
+    exact fun h0 => hm (by rw [h0, zero_mul])
+  · intro m hm
+    simp only [segs', List.mem_map] at hm
+    obtain ⟨m0, _, rfl⟩ := hm
+    show binarise (m0 (ry i) (rx j) * fac m0 i j) = 0 ∨ binarise (m0 (ry i) (rx j) * fac m0 i j) = 1
+    unfold binarise
+    by_cases h : m0 (ry i) (rx j) * fac m0 i j = 0
+    · rw [if_pos h]; exact Or.inl rfl
+    · rw [if_neg h]; exact Or.inr rfl
+
+/-- non-vacuity of `rescale_one_is_identity`: the nearest-sample interpolator `f ⌊y⌋ ⌊x⌋` reproduces samples at integer coordinates,
+so the hypotheses `hi`, `hi1` are satisfiable and rescaling by 1 with it returns the image -/
+example (img : Int → Int → ℚ) (n0 n1 i j : Int) :
+    rescaleAt (fun f y x => f ⌊y⌋ ⌊x⌋) (fun f y x => f ⌊y⌋ ⌊x⌋) Int.ceil (fun k => (k : ℚ)) 2 (1 / 2) n0 n1 img 1 i j = img i j :=
+  rescale_one_is_identity (K := ℚ) _ _ (fun f a b => by simp) (fun f a b => by simp) (1 / 2) (by norm_num) n0 n1 img i j
+
 /-- the mask stays binary with its segment structure, on the regenerated grid: every resampled layer (`nearestMask`: nearest source pixel
 of the regenerated coordinate, binarised, 0 on the rim) takes only the values 0 and 1, the number of layers is kept, and at every
 output sample whose coordinate lies inside the input array the union of disjoint segments is the resampled union (1 iff some segment
